@@ -47,7 +47,7 @@ func (c08) Runs(tier string) int {
 	if tier == "thorough" {
 		return 25000
 	}
-	return 600
+	return 1500
 }
 func (c08) RequiredProbes(string) []string {
 	return []string{"valid_completion_checked", "invalid_completion_checked"}
